@@ -63,7 +63,13 @@ def shard_cases(mod, tier, seed, n, k, nshards):
     """deterministic assignment; modules may give per-case weights for balance (longest first)"""
     w = getattr(mod, "case_weight", None)
     if w is None:
-        return list(range(k, n, nshards))
+        # a seeded shuffle, not a stride: with a stride of 16 every worker would only ever see cases of one parity
+        # (one level, one sample type ...), and what a process did before a case is itself a dimension of the workload
+        import random
+
+        order = list(range(n))
+        random.Random(f"deal-{seed}-{n}").shuffle(order)
+        return order[k::nshards]
     order = sorted(range(n), key=lambda i: (-w(i, tier, seed), i))
     load = [0.0] * nshards
     mine = []
